@@ -279,6 +279,11 @@ def run(prog: Program, roots=None, prop="C14", rid_prefix="R-C14") -> Results:
         res.add(f"{rid_prefix}-4", (rts.key, "resolver keeps state"), rts.loc(),
                 f"{rts.key} stores state on the document / is decorated: the resolved target set may be stale on a later access")
     if prop == "C14":
+        from sa.rules.c01 import content_findings
+        content_findings(prog, res, f"{rid_prefix}-10", only_fields=lambda pr, c, k: k in ("values", "local_variables", "scope", "expressions"),
+                         describe="binding-container")
+        res.rules[f"{rid_prefix}-10"].floor = 3
+        order_accessor(prog, res, f"{rid_prefix}-9")
         from sa.rules import cursor
         cursor.check(prog, res, "R-C14-8", ("expressions/set.py", "expressions/scope.py", "expressions/source_code.py", "expressions/let.py"), 1)
         lookup_failures(prog, res, f"{rid_prefix}-6")
@@ -440,3 +445,34 @@ def identity_of_bindings(prog: Program, res: Results, rid: str) -> None:
                     f"{f.key}: `{norm(n)[:70]}` replaces an element of `{base}` by another object: order entries held by the parent set / "
                     f"let layer (`_AttrpathEntry.binding`) still point at the old Binding, so the rebuilt text keeps the old value while "
                     f"lookups report the new one")
+
+
+def order_accessor(prog: Program, res: Results, rid: str) -> None:
+    """Scope._attrpath_order is what every scope mutation uses to find the mirror list: it may answer None only when there
+    is no owner / no state (nothing to mirror) or the list is empty; any other None silently skips the mirror update"""
+    from sa.cfg import CFG, edges_establishing
+    r = res.rule(rid, "the scope's order accessor is total: `Scope._attrpath_order` returns None only under `owner is None` / "
+                 "`state is None` (or for an empty list); a mutation can then never skip the mirror update while a list exists", floor=2)
+    f = prog.func("Scope._attrpath_order")
+    res.analysed_functions.add(f.key)
+    cfg = CFG(f.node)
+    absent = edges_establishing(cfg, lambda a, t: isinstance(a, ast.Compare) and len(a.ops) == 1 and isinstance(a.comparators[0], ast.Constant)
+                                and a.comparators[0].value is None and isinstance(a.left, ast.Name)
+                                and ((isinstance(a.ops[0], ast.Is) and t is True) or (isinstance(a.ops[0], ast.IsNot) and t is False)))
+    for n in cfg.nodes:
+        if n.kind == "return":
+            v = n.ast.value
+            r.instances += 1
+            if v is None or (isinstance(v, ast.Constant) and v.value is None):
+                ok = bool(absent) and cfg.all_paths_pass(n, cut_edges=absent)
+                r.ob(ok, {"return": "None", "only_when_absent": ok})
+                if not ok:
+                    res.add(rid, (f.key, "order list hidden although it exists"), f.loc(n.ast),
+                            f"{f.key}: `return None` is reachable when owner and state exist: `del scope[k]` / `scope[k] = v` then skip the "
+                            f"mirror update of attrpath_order, so a deleted binding keeps being rendered (or a new one is not) while the "
+                            f"mapping reports otherwise")
+            else:
+                ok = "attrpath_order" in norm(v)
+                r.ob(ok, {"return": norm(v)[:50]})
+                if not ok:
+                    res.add(rid, (f.key, "accessor returns something else"), f.loc(n.ast), f"{f.key} returns `{norm(v)[:50]}`, not the state's attrpath_order")
